@@ -170,7 +170,7 @@ def run(prog: Program, res: Result, tier: str) -> None:
          and s.value.args and norm(s.value.args[0]) == "method") or
         (isinstance(s.value, ast.Subscript) and isinstance(s.value.value, ast.Name) and norm(s.value.slice) == "method"))]
     tname = (lookups[0].value.func.value.id if isinstance(lookups[0].value, ast.Call) else lookups[0].value.value.id) if lookups else "scale_methods"
-    fname = norm(lookups[0].targets[0] if isinstance(lookups[0], ast.Assign) else lookups[0].target) if lookups else "scale_func"
+    fname = impl_local = norm(lookups[0].targets[0] if isinstance(lookups[0], ast.Assign) else lookups[0].target) if lookups else "scale_func"
     table = [s for s in body_walk(es.node) if (isinstance(s, ast.AnnAssign) and norm(s.target) == tname) or
              (isinstance(s, ast.Assign) and len(s.targets) == 1 and norm(s.targets[0]) == tname)]
     impl = {}
@@ -202,13 +202,17 @@ def run(prog: Program, res: Result, tier: str) -> None:
     rets_l = [s_ for s_ in body_walk(el.node) if isinstance(s_, ast.Return) and s_.value is not None]
     found = {}
     ok = True
-    for r_ in rets_l:
-        from ..pathcond import selected_by as _selected_by2
-        names_here = [n for n in loc_names if _selected_by2(pcl, r_, "method", n) is not None]
+    # path-wise (normal form): each returned value with the values its conditions leave for `method` - whether the
+    # function returns in each branch or assigns a local and returns once
+    from ..normalform import normal_form as _nf15
+    nfl = _nf15(el)
+    for e_ in nfl.returns():
+        names_here = [n for n in loc_names if nfl.selects(e_, "method", n)]
         if len(names_here) != 1:
             ok = False   # a return that is not selected by exactly one method name: unknown names would not raise
             continue
-        found[names_here[0]] = canon(r_.value)
+        found[names_here[0]] = e_.text()
+    ok = ok and any(e_.excludes("method", *loc_names) for e_ in nfl.raises())
     ok = ok and set(found) == set(loc_names) and all(found[n] == want_loc.get(n, found[n]) for n in loc_names) and \
         any(isinstance(s_, ast.Raise) for s_ in body_walk(el.node))
     (res.ok if ok else res.bad)("R2", el, el.node, f"LocMethods {loc_names} each reduce along (axis, keepdims); unknown names raise" if ok else
@@ -234,6 +238,19 @@ def run(prog: Program, res: Result, tier: str) -> None:
     from ..lints import check_no_bare_squeeze
     check_no_bare_squeeze(prog, res, "R3", [S], "for data of shape (1, n) reduced along axis=1 the kept axis disappears too and the result no "
                           "longer broadcasts against the input")
+    # ---- R3 (cont.) axis = 0 is an axis: no optional numeric parameter is tested for its truth value, in the estimators and in
+    # the containers that hand an axis to them (a `x if axis else None` in a caller turns axis=0 into the whole-array reduction)
+    from ..lints import check_no_falsy_zero
+    check_no_falsy_zero(prog, res, "R3", [S, U, "sigpyproc.block", "sigpyproc.timeseries"],
+                        "axis=0 would select the whole-array reduction instead of the per-lane one")
+    # ---- R1 (cont.) the scale estimators equal their textbook definitions (sign- and shift-equivariance are properties of
+    # those definitions: symmetric gap weights i(n-i), pairwise distances, quartile difference) -----------------------------
+    for est in ("_scale_iqr", "_scale_gapper_1d", "_scale_qn_1d", "_scale_sn_1d", "_scale_diffcov_1d"):
+        fe = prog.func(S, est)
+        v_, why_ = kernelspec.compare(fe, est)
+        if v_ == "incomparable":
+            raise AnalysisError(f"{est} cannot be compared with its reference definition: {why_[0]}")
+        (res.ok if v_ == "same" else res.bad)("R1", fe, fe.node, ("; ".join(why_))[:600], construct=est, key=f"estimator:{est}")
     # ---- R5 sibling symmetry inside the double-sided estimator ------------------------------------------------------
     check_doublemad_symmetry(prog, res, "R5")
 
@@ -248,6 +265,10 @@ def run(prog: Program, res: Result, tier: str) -> None:
     for c in exps:
         ax = next((k.value for k in c.keywords if k.arg == "axis"), c.args[1] if len(c.args) > 1 else None)
         arr = c.args[0] if c.args else None
+        if isinstance(ax, ast.Name) and ax.id not in es.params:
+            ds_ = fes.reaching(ax.id, fes.cfg.node_for(c))     # `axes = ... if axis is None else axis` held in a local
+            if len(ds_) == 1 and ds_[0].kind == "assign" and ds_[0].value is not None:
+                ax = ds_[0].value
         if ax is None or arr is None or holds(pce, c, "keepdims") is None:
             ok = False
         elif canon(ax) == canon("tuple(range(data.ndim)) if axis is None else axis"):
@@ -260,7 +281,7 @@ def run(prog: Program, res: Result, tier: str) -> None:
             ok = ok and canon(ax) == canon("axis")
         else:
             ok = False
-    calls_impl = [c for c in calls_in_body(es.node) if dotted(c.func) == "scale_func" and [norm(a) for a in c.args] == ["data", "axis"]]
+    calls_impl = [c for c in calls_in_body(es.node) if dotted(c.func) == impl_local and [norm(a) for a in c.args] == ["data", "axis"]]
     ok = ok and seen_none and seen_axis and len(calls_impl) == 1
     (res.ok if ok else res.bad)("R4", es, es.node, "keepdims re-inserts exactly the reduced axes (all axes for axis=None)" if ok else
                                 "estimate_scale: keepdims does not re-expand the axes that were reduced", construct="keepdims", key="scale:keepdims")
@@ -559,7 +580,19 @@ MUTANTS += [
     {"id": "c15-mad-fallback-wholesale", "file": SF, "expect": "C15.R3",
      "old": "        mad = np.where(is_zero_mad, aad, mad)\n", "new": "        mad = aad\n"},
 ]
+MUTANTS += [
+    {"id": "c15-gapper-weights-off-by-one", "file": "sigpyproc/core/stats.py", "expect": "C15.R1",
+     "old": "    weights = np.arange(1, n) * np.arange(n - 1, 0, -1)", "new": "    idx = np.arange(n - 1)\n    weights = (idx + 1) * (n - idx)"},
+    {"id": "c15-iqr-degenerate-guard", "file": "sigpyproc/core/stats.py", "expect": "C15.R1",
+     "old": "    return np.squeeze((percentiles[1] - percentiles[0]) / norm, axis=axis)", "new": "    iqr = np.where(np.isclose(percentiles[1], percentiles[0]), 0.0, percentiles[1] - percentiles[0])\n    return np.squeeze(iqr / norm, axis=axis)"},
+    {"id": "c15-normalise-axis-falsy", "file": "sigpyproc/block.py", "expect": "C15.R3",
+     "old": "        zscore_re = stats.estimate_zscore(self.data, loc_method, scale_method, axis)", "new": "        axis = axis % self.data.ndim if axis else None\n        zscore_re = stats.estimate_zscore(self.data, loc_method, scale_method, axis)"},
+]
 TWINS = [
+    {"id": "c15-twin-gapper-weights-index", "file": "sigpyproc/core/stats.py",
+     "old": "    weights = np.arange(1, n) * np.arange(n - 1, 0, -1)", "new": "    idx = np.arange(1, n)\n    weights = idx * (n - idx)"},
+    {"id": "c15-twin-normalise-axis-is-none", "file": "sigpyproc/block.py",
+     "old": "        zscore_re = stats.estimate_zscore(self.data, loc_method, scale_method, axis)", "new": "        if axis is not None and axis < 0:\n            axis = axis % self.data.ndim\n        zscore_re = stats.estimate_zscore(self.data, loc_method, scale_method, axis)"},
     {"id": "c15-twin-select-max-at-median", "file": "sigpyproc/core/stats.py",
      "old": "    mad_both = 0.5 * (mad_left + mad_right)\n", "new": "    mad_both = (mad_right + mad_left) / 2\n"},
     {"id": "c15-twin-select-order", "file": "sigpyproc/core/stats.py",
